@@ -141,7 +141,11 @@ def run(tier, seed, replay=None):
     chk = core.Check("C02", tier, seed)
     proof = core.proof_step("C02", thorough=(tier == "thorough"))
     r = flow.rng(seed, "c02mh")
-    if replay:
+    from harness.props import c06
+    ph, rep_replay = c06.variation_phase(chk, "C02", "run_c02r", ("F03",), replay, seed, tier, "refinements on programs returned by the representations")
+    if rep_replay:
+        cases, mcases = [], []
+    elif replay:
         rc = replay["replay"]["case"]
         cases, mcases = ([rc], []) if rc["op"] == "create" else ([], [rc])
     else:
@@ -170,7 +174,8 @@ def run(tier, seed, replay=None):
     for c in mcases:
         kinds[c["mh"][0]] = kinds.get(c["mh"][0], 0) + 1
     cov = {
-        "evaluations": len(cases) + len(mcases),
+        "representation_operations": c06.variation_cov(ph),
+        "evaluations": len(cases) + len(mcases) + (len(ph["ecs"]) if ph else 0),
         "distinct_nontrivial": (flow.distinct_nontrivial(cases, outs or [], nontrivial) if outs else 0) + len({json.dumps(c, sort_keys=True) for c in mcases}),
         "traces_validated_against_impl": len(cases) + len(mcases),
         "correspondence_mismatches": len(corr) + len(mcorr), "oracle_failures": len(orac) + len(morac),
